@@ -87,6 +87,10 @@ def resolve(repo, fi, expr, at=None, self_repl=None, depth=8):
                 v = repo.try_fold(e, fi.mod, fi.cls)
                 if isinstance(v, (str, int)) and not isinstance(v, bool):
                     return ast.Constant(value=v)
+            if isinstance(e.value, ast.Name) and e.value.id == "self" and self_repl is None and e.attr not in self_assigns and e.attr not in props:
+                v = repo.try_fold(e, fi.mod, fi.cls)   # a class-level constant read through the instance
+                if isinstance(v, (str, int)) and not isinstance(v, bool):
+                    return ast.Constant(value=v)
             recv = rs(e.value, d)
             if e.attr in props:
                 ret = _single_return(props[e.attr])
